@@ -333,6 +333,8 @@ template <class Data> static Result runCase(const Case& c) {
       std::vector<long> s, r;
       for (size_t i = 0; i < kv.second.first.size(); ++i) s.push_back((long)kv.second.first[i]);
       for (size_t i = 0; i < kv.second.second.size(); ++i) r.push_back((long)kv.second.second[i]);
+      // a neighbour with two empty lists says the same as no entry: not printed, not an error
+      if (s.empty() && r.empty()) { dv::stat("interface_empty_entries"); continue; }
       o += " " + std::to_string(kv.first) + ":" + showL(s) + "|" + showL(r);
       got[kv.first] = std::make_pair(s, r);
     }
